@@ -283,6 +283,7 @@ type workerOut struct {
 	OpKinds     map[string]int `json:"op_kinds"`
 	// keys hammered while their (single) deadline passed
 	ExpiryStorms  int `json:"expiry_storms"`
+	CrossedStorms int `json:"crossed_storms"`
 	ExpiryRounds  int `json:"expiry_rounds"`
 	ExpirySkipped int `json:"expiry_rounds_skipped_slow_setup"`
 	ExpiryKeys    int `json:"expiry_keys"`
@@ -1543,6 +1544,112 @@ func (rn *runner) stormC13(r *rand.Rand, shards int, expiring bool) {
 	rn.quiesce(in, "C13 storm")
 }
 
+// pickCrossed finds four keys (all carrying prefix) on four different lock stripes such that the first and the last
+// share a map shard and the two in the middle share another one: two two-key commands on (k0,k1) and (k2,k3) are
+// independent as far as the stripes go and meet, in opposite order, on the shards underneath.
+func pickCrossed(r *rand.Rand, shards int, prefix string) []string {
+	if shards < 2 {
+		return nil
+	}
+	stripes := uint32(2 * shards)
+	sh := uint32(shards)
+	base := r.Intn(1 << 20)
+	var out []string
+	var hs []uint32
+	for i := 0; len(out) < 4 && i < 400000; i++ {
+		k := fmt.Sprintf("%sx%d", prefix, base+i)
+		h := uint32(util.HashKey(k))
+		ok := true
+		for _, o := range hs {
+			if o%stripes == h%stripes {
+				ok = false
+			}
+		}
+		if !ok {
+			continue
+		}
+		switch len(out) {
+		case 1: // another shard than k0
+			ok = h%sh != hs[0]%sh
+		case 2: // the shard of k1
+			ok = h%sh == hs[1]%sh
+		case 3: // the shard of k0
+			ok = h%sh == hs[0]%sh
+		}
+		if ok {
+			out = append(out, k)
+			hs = append(hs, h)
+		}
+	}
+	if len(out) < 4 {
+		return nil
+	}
+	return out
+}
+
+// crossedC13: pairs of two-key commands on disjoint stripes whose keys share the map shards crosswise, back and forth,
+// as fast as the clients can. Nothing but the watchdog can see a lock order below the stripes.
+func (rn *runner) crossedC13(r *rand.Rand, shards int) {
+	in := inproc.New()
+	defer in.Stop()
+	ks, ls, ss := pickCrossed(r, shards, ""), pickCrossed(r, shards, "l:"), pickCrossed(r, shards, "s:")
+	if ks == nil || ls == nil || ss == nil {
+		return
+	}
+	for _, k := range []string{ks[0], ks[2]} {
+		in.Exec(respc.Cmd("SET", k, "v"), nil)
+	}
+	for _, k := range []string{ls[0], ls[2]} {
+		in.Exec(respc.Cmd("RPUSH", k, "a", "b", "c"), nil)
+	}
+	for _, k := range []string{ss[0], ss[2]} {
+		in.Exec(respc.Cmd("SADD", k, "a", "b"), nil)
+	}
+	rounds := 6000
+	var wg sync.WaitGroup
+	var n int64
+	for ci := 0; ci < 4; ci++ {
+		wg.Add(1)
+		go func(ci int) {
+			defer wg.Done()
+			p := (ci % 2) * 2 // clients 0 and 2 work on (k0,k1), clients 1 and 3 on (k2,k3)
+			for i := 0; i < rounds; i++ {
+				a, b := p, p+1
+				if (i+ci/2)%2 == 1 {
+					a, b = b, a
+				}
+				switch i % 5 {
+				case 0, 1, 2:
+					in.Exec(respc.Cmd("RENAME", ks[a], ks[b]), nil)
+				case 3:
+					in.Exec(respc.Cmd("LMOVE", ls[a], ls[b], "LEFT", "RIGHT"), nil)
+				default:
+					in.Exec(respc.Cmd("SMOVE", ss[a], ss[b], "a"), nil)
+				}
+				atomic.AddInt64(&n, 1)
+			}
+		}(ci)
+	}
+	done := make(chan struct{})
+	go func() { wg.Wait(); close(done) }()
+	select {
+	case <-done:
+	case <-time.After(60 * time.Second):
+		buf := make([]byte, 1<<20)
+		buf = buf[:runtime.Stack(buf, true)]
+		rn.report(witness{Kind: "deadlock", Detail: fmt.Sprintf("two-key commands on (%q,%q) and on (%q,%q) - four different stripes, map shards shared crosswise - stopped after %d commands and did not finish within 60s\n%s", ks[0], ks[1], ks[2], ks[3], atomic.LoadInt64(&n), inproc.TopFrames(string(buf), 12)), Sig: "deadlock|crossed-shards"})
+		b, _ := json.Marshal(rn.out)
+		_ = os.WriteFile(*fOut, b, 0o644)
+		os.Exit(3)
+	}
+	rn.out.Ops += int(n)
+	rn.out.CrossedStorms++
+	rn.out.OpKinds["RENAME"] += int(n) * 3 / 5
+	rn.out.OpKinds["LMOVE"] += int(n) / 5
+	rn.out.OpKinds["SMOVE"] += int(n) / 5
+	rn.quiesce(in, "C13 crossed shards")
+}
+
 func worker(o *common.Opts) {
 	if *fProcs > 0 {
 		runtime.GOMAXPROCS(*fProcs)
@@ -1569,6 +1676,8 @@ func worker(o *common.Opts) {
 		if *fProp == "C13" {
 			if h%5 == 4 {
 				rn.stormC13(r, *fShards, h%10 == 9)
+			} else if h%10 == 3 && *fShards >= 2 {
+				rn.crossedC13(r, *fShards)
 			} else {
 				rn.historyC13(r, *fShards)
 			}
@@ -1717,6 +1826,7 @@ func main() {
 			agg.Overlapping += w.Overlapping
 			agg.Conserv += w.Conserv
 			agg.ExpiryStorms += w.ExpiryStorms
+			agg.CrossedStorms += w.CrossedStorms
 			agg.ExpiryRounds += w.ExpiryRounds
 			agg.ExpirySkipped += w.ExpirySkipped
 			agg.ExpiryKeys += w.ExpiryKeys
@@ -1834,9 +1944,10 @@ func main() {
 			"commands_by_name":                        agg.OpKinds,
 			"quiescence_checks":                       agg.Conserv,
 			"multi_key_storms_with_deadlines_passing": agg.ExpiryStorms,
-			"expiry_crossing_rounds":                  agg.ExpiryRounds,
-			"expiry_crossing_rounds_skipped":          agg.ExpirySkipped,
-			"expiry_crossing_keys":                    agg.ExpiryKeys,
+			"two_key_command_storms_on_crossed_map_shards": agg.CrossedStorms,
+			"expiry_crossing_rounds":                       agg.ExpiryRounds,
+			"expiry_crossing_rounds_skipped":               agg.ExpirySkipped,
+			"expiry_crossing_keys":                         agg.ExpiryKeys,
 			"expiry_crossing_keys_with_acknowledged_updates_on_both_sides_of_the_deadline": agg.ExpiryCrossed,
 			"race_reports":                    races,
 			"race_reports_first_party":        raceFP,
